@@ -1,6 +1,7 @@
-//! libc-level seams: the harness binary defines `clock_gettime` and `getrandom`, so that
-//! `std::time::Instant`, `SystemTime` and `HashMap`'s `RandomState` inside a simulation follow the
-//! simulator instead of the kernel. Outside a simulation (flag off) both forward to the raw
+//! libc-level seams: the harness binary defines `clock_gettime`, `getrandom` and `syscall`, so that
+//! `std::time::Instant`, `SystemTime`, `HashMap`'s `RandomState` and every `rand`/`getrandom`
+//! consumer (`OsRng`, `thread_rng`, snow's and ring's key generation: getrandom 0.2 goes through
+//! `libc::syscall(SYS_getrandom)`) inside a simulation follow the simulator instead of the kernel. Outside a simulation (flag off) both forward to the raw
 //! syscall, so wall-clock budgets and evidence timing stay real.
 use std::cell::Cell;
 
@@ -25,21 +26,51 @@ pub unsafe extern "C" fn clock_gettime(clk: libc::clockid_t, ts: *mut libc::time
     }
 }
 
+unsafe fn sim_fill(buf: *mut libc::c_void, len: libc::size_t) -> libc::ssize_t {
+    let s = std::slice::from_raw_parts_mut(buf as *mut u8, len);
+    for b in s.iter_mut() {
+        let mut x = SIM_RNG.with(|r| r.get());
+        x ^= x << 13;
+        x ^= x >> 7;
+        x ^= x << 17;
+        SIM_RNG.with(|r| r.set(x));
+        *b = (x >> 24) as u8;
+    }
+    len as libc::ssize_t
+}
+
 #[no_mangle]
 pub unsafe extern "C" fn getrandom(buf: *mut libc::c_void, len: libc::size_t, flags: libc::c_uint) -> libc::ssize_t {
     if SIM_ON.with(|s| s.get()) {
-        let s = std::slice::from_raw_parts_mut(buf as *mut u8, len);
-        for b in s.iter_mut() {
-            let mut x = SIM_RNG.with(|r| r.get());
-            x ^= x << 13;
-            x ^= x >> 7;
-            x ^= x << 17;
-            SIM_RNG.with(|r| r.set(x));
-            *b = (x >> 24) as u8;
-        }
-        len as libc::ssize_t
+        sim_fill(buf, len)
     } else {
         libc::syscall(libc::SYS_getrandom, buf, len, flags) as libc::ssize_t
+    }
+}
+
+/// Replacement for libc's variadic `syscall(2)` wrapper (x86_64 SysV: a variadic callee receives
+/// its integer arguments exactly like a fixed-arity one). `SYS_getrandom` is served from the
+/// simulation's generator while the seam is armed; everything else is the raw instruction with
+/// libc's errno convention.
+#[cfg(target_arch = "x86_64")]
+#[no_mangle]
+pub unsafe extern "C" fn syscall(num: libc::c_long, a1: usize, a2: usize, a3: usize, a4: usize, a5: usize, a6: usize) -> libc::c_long {
+    if num == libc::SYS_getrandom && SIM_ON.with(|s| s.get()) {
+        return sim_fill(a1 as *mut libc::c_void, a2) as libc::c_long;
+    }
+    let ret: isize;
+    core::arch::asm!(
+        "syscall",
+        inlateout("rax") num as isize => ret,
+        in("rdi") a1, in("rsi") a2, in("rdx") a3, in("r10") a4, in("r8") a5, in("r9") a6,
+        lateout("rcx") _, lateout("r11") _,
+        options(nostack)
+    );
+    if (-4095..0).contains(&ret) {
+        *libc::__errno_location() = (-ret) as libc::c_int;
+        -1
+    } else {
+        ret as libc::c_long
     }
 }
 
